@@ -220,7 +220,7 @@ PROPS = {
     "C03": ip_prop("C03", [ip_checks.core_scope, ip_checks.file_scope, ip_checks.big_history, ip_checks.process_history_scope]),
     "C04": ip_prop("C04", [ip_checks.core_scope, ip_checks.file_scope, ip_checks.cli_scope, ip_checks.big_history], ["Netconan.Props.C04Data"]),
     "C05": ip_prop("C05", [ip_checks.mask_scope, ip_checks.core_scope, ip_checks.file_scope, ip_checks.cli_scope]),
-    "C18": {"modules": ["Netconan.Props.C18"], "scopes": [jun_checks.scope],
+    "C18": {"modules": ["Netconan.Props.C18", "Netconan.Props.C18Data"], "scopes": [jun_checks.scope],
             "checker_cmd": "cd lean && lake build Netconan.Props.C18 && lake env lean <#print axioms audit>", "rule": JUN_RULE,
             "assumptions": ["FAMILY/ENCODING/EXTRA/_fixedc tables are regenerated from the live module on every run; the functions are modelled by hand and tied by correspondence"]},
     "C06": {"modules": ["Netconan.Props.C06"], "scopes": [iptext_checks.scope, iptext_checks.io_scope],
@@ -232,7 +232,7 @@ PROPS = {
     "C07": {"modules": ["Netconan.Props.C07"], "scopes": [secret_checks.corr_scope, secret_checks.c07_scope],
             "checker_cmd": "cd lean && lake build Netconan.Props.C07 && lake env lean <#print axioms audit>", "rule": SECRET_RULE,
             "assumptions": SECRET_ASSUME},
-    "C08": {"modules": ["Netconan.Props.C08"], "scopes": [secret_checks.corr_scope, secret_checks.c08_scope],
+    "C08": {"modules": ["Netconan.Props.C08", "Netconan.Props.C18Data"], "scopes": [secret_checks.corr_scope, secret_checks.c08_scope],
             "checker_cmd": "cd lean && lake build Netconan.Props.C08 && lake env lean <#print axioms audit>", "rule": SECRET_RULE,
             "assumptions": SECRET_ASSUME},
     "C09": {"modules": ["Netconan.Props.C09"], "scopes": [secret_checks.corr_scope, secret_checks.c09_scope],
